@@ -235,7 +235,7 @@ def main():
         for cs in inject_specs:
             import inject
             try:
-                fails, stats = inject.run()
+                fails, stats = inject.run(*((inject.CONFIGS_THOROUGH, inject.WIDTHS_THOROUGH) if tier == "thorough" else (None, None)))
             except Exception as e:
                 print(f"UNDECIDED property={prop}: comment-injection sweep did not run: {e}")
                 return 2
